@@ -290,8 +290,9 @@ class Initiator(DataExchangeProtocol):
 
         def ATN():
             pdu_type = DEP_REQ.Attention
-            pfb = DEP_REQ.PFB(pdu_type, nad=False, did=False, pni=0)
-            return DEP_REQ(pfb, did=None, nad=None, data=None)
+            did, nad = self.did, self.nad
+            pfb = DEP_REQ.PFB(pdu_type, nad is not None, did is not None, 0)
+            return DEP_REQ(pfb, did, nad, data=None)
 
         def request_attention(self, n_retry_atn, rwt, deadline):
             req = ATN()
